@@ -5,8 +5,7 @@
 
    Pattern operators: the pattern of a word is [pattern_of w] (quoted parts backslash-escaped, as bash's
    quote_string_for_globbing does) parsed into tokens [toks a]; fragment * ? literal \x.
-   Not proved (by search and code leg only): which match ${v/p/w} takes at the leftmost position, the
-   global form ${v//p/w}; the element-wise theorems cover the pattern operators (# ## % %% ^ ^^ , ,,) on
+   Not proved (by search and code leg only): the global form ${v//p/w}; the element-wise theorems cover the pattern operators (# ## % %% ^ ^^ , ,,) on
    indexed arrays and positional parameters, not replacement / slices / associative arrays; see notes/C21.md. *)
 From Verif Require Import Base.Str Expand.Param Expand.ParamSpec Proofs.ParamMatchProofs Proofs.ParamProofs.
 Open Scope N_scope.
@@ -115,9 +114,9 @@ Theorem C21_replace_anchored_begin : forall upper lower quote e name i orig w s 
 Proof. exact replace_begin_param. Qed.
 Print Assumptions C21_replace_anchored_begin.
 
-(* ${p/pat/w}: an occurrence starting at the leftmost matching position is replaced
-   (partial: which match at that position is not characterised) *)
-Theorem C21_replace_first_partial : forall upper lower quote e name i orig w s p a,
+(* ${p/pat/w}: the occurrence replaced starts at the leftmost position where pat matches and is the longest
+   match at that position; unchanged when pat matches nowhere *)
+Theorem C21_replace_first : forall upper lower quote e name i orig w s p a,
   is_params_name name = false -> is_list_idx i = false ->
   bash_value (env_get e name) i = PVal (Some s) ->
   split_anchor false orig (pattern_of orig) = (ANone, p) ->
@@ -125,10 +124,11 @@ Theorem C21_replace_first_partial : forall upper lower quote e name i orig w s p
   pat_atoms p = PatOk a ->
   exists r, param_exp upper lower quote e (mkP name i (PRepl false orig w)) = OOk (r, None) /\
     ((exists pre mid post, s = pre ++ mid ++ post /\ pmatch (toks a) mid /\ r = pre ++ literal_of w ++ post /\
-        forall pre' mid' post', s = pre' ++ mid' ++ post' -> pmatch (toks a) mid' -> (length pre <= length pre')%nat)
+        (forall pre' mid' post', s = pre' ++ mid' ++ post' -> pmatch (toks a) mid' -> (length pre <= length pre')%nat) /\
+        (forall mid' post', mid ++ post = mid' ++ post' -> pmatch (toks a) mid' -> (length mid' <= length mid)%nat))
      \/ (r = s /\ forall pre mid post, s = pre ++ mid ++ post -> ~ pmatch (toks a) mid)).
 Proof. exact replace_first_param. Qed.
-Print Assumptions C21_replace_first_partial.
+Print Assumptions C21_replace_first.
 
 Theorem C21_replace_unset : forall upper lower quote e name i all orig w,
   is_params_name name = false -> is_list_idx i = false ->
